@@ -545,8 +545,10 @@ class QsModel:
             if len(locs) == 0:
                 self._fail("I-loc", f"job {j.tag()} (channel {j.channel}) is lost: accepted, unfinished, "
                            f"in no channel queue and with no live worker", job=j.tag(), model_state=j.state)
+                continue  # (only reached when the class is a recorded observation for this check)
             if len(locs) > 1:
                 self._fail("I-loc", f"job {j.tag()} is in {len(locs)} places: {locs}", job=j.tag())
+                continue
             kind, at = locs[0]
             if j.state == "q" and kind != "queue":
                 self._fail("I-loc", f"job {j.tag()} should be queued but is with worker {at}", job=j.tag())
